@@ -52,8 +52,11 @@ def fed_after_isolation(ps, v_lines, faulted):
     """buses still reachable from the feed once the faulted line's section is out"""
     sec = faulted.section
     adj = {}
+    sw = set(sec.switches)
     for l in ps.lines:
-        if l.is_backup or l in sec.lines:
+        # out of service once the section is isolated: its own lines, and every line that carries one of its
+        # boundary switches (a disconnector at the far end of the upstream line takes that line out with it)
+        if l.is_backup or l in sec.lines or any(d in sw for d in l.disconnectors):
             continue
         adj.setdefault(l.fbus.name, []).append(l.tbus.name)
         adj.setdefault(l.tbus.name, []).append(l.fbus.name)
